@@ -273,7 +273,8 @@ def check_concrete_lift(chk, F):
             elif ty.startswith("std::vec::Vec<(usize"):
                 fields[fd["name"]] = PyVec([(1, Term("sub", 0)), (2, Term("sub", 1)), (3, Term("sub", 2))])
             elif ty.startswith("std::vec::Vec<"):
-                fields[fd["name"]] = PyVec([Term("sub", 0), Term("sub", 1)])
+                # three conjuncts: the parser only builds binary `and`s, the type allows any number
+                fields[fd["name"]] = PyVec([Term("sub", 0), Term("sub", 1), Term("sub", 2)])
             elif ty.startswith("primitives::threshold::Threshold"):
                 fields[fd["name"]] = model.threshold(2, [Term("sub", 0), Term("sub", 1), Term("sub", 2)])
             else:
@@ -304,7 +305,7 @@ def check_concrete_lift(chk, F):
             "Unsatisfiable": ("false",), "Trivial": ("true",), "Key": ("key", "K0"), "After": ("after",),
             "Older": ("older",), "Sha256": ("hash", "Sha256"), "Hash256": ("hash", "Hash256"),
             "Ripemd160": ("hash", "Ripemd160"), "Hash160": ("hash", "Hash160"),
-            "And": ("thresh", 2, [("L", 0), ("L", 1)]),
+            "And": ("thresh", 3, [("L", 0), ("L", 1), ("L", 2)]),
             "Or": ("thresh", 1, [("L", 0), ("L", 1), ("L", 2)]),
             "Thresh": ("thresh", 2, [("L", 0), ("L", 1), ("L", 2)]),
         }.get(name)
